@@ -236,3 +236,84 @@ pub fn history_inv(buf: &[u8], cursor: Option<usize>, used: usize, text_only: bo
     }
     true
 }
+
+/// `history_inv` over a fixed array with constant loop bounds (cheap to unwind).
+pub fn history_inv_c<const H: usize>(buf: &[u8; H], cursor: Option<usize>, used: usize, text_only: bool) -> bool {
+    if used > H {
+        return false;
+    }
+    if used > 0 {
+        if buf[used - 1] != 0 || buf[0] == 0 {
+            return false;
+        }
+    }
+    let mut i = 0usize;
+    while i < H {
+        if i < used {
+            if i > 0 && buf[i] == 0 && buf[i - 1] == 0 {
+                return false;
+            }
+            if text_only && buf[i] != 0 && buf[i] < 0x20 {
+                return false;
+            }
+        }
+        i += 1;
+    }
+    match cursor {
+        None => {}
+        Some(c) => {
+            if c >= used {
+                return false;
+            }
+            if c > 0 && buf[c - 1] != 0 {
+                return false;
+            }
+        }
+    }
+    // well-formed UTF-8 (NUL is ASCII, so entry by entry)
+    let mut p = 0usize;
+    let mut k = 0usize;
+    while k < H {
+        if p < used {
+            let l = wf_len(buf, p, used);
+            if l == 0 {
+                return false;
+            }
+            p += l;
+        }
+        k += 1;
+    }
+    // entries pairwise distinct
+    let mut a = 0usize;
+    while a < H {
+        if a < used && (a == 0 || buf[a - 1] == 0) {
+            let mut b = a + 1;
+            while b < H {
+                if b < used && buf[b - 1] == 0 {
+                    let mut k = 0usize;
+                    let mut same = true;
+                    let mut done = false;
+                    while k < H {
+                        if !done && b + k < used {
+                            let x = buf[a + k];
+                            let y = buf[b + k];
+                            if x != y {
+                                same = false;
+                                done = true;
+                            } else if x == 0 {
+                                done = true;
+                            }
+                        }
+                        k += 1;
+                    }
+                    if same {
+                        return false;
+                    }
+                }
+                b += 1;
+            }
+        }
+        a += 1;
+    }
+    true
+}
